@@ -400,20 +400,25 @@ def search_cases(rng, tier):
 LEVEL_TEXT = (
     "Machine-checked proof (Coq) over a Gallina transcription of the identity-map machinery: for every history of the "
     "modelled operations (unbounded, any database / attribute environment) the identity map is a partial function and "
-    "what it holds carries an identity key; a query returns, row by row, the object mapped under (pk, token); get of a "
-    "present unexpired object returns it, emits no SQL and changes nothing.  Four concrete histories refute the stronger "
-    "reading (persistent <-> mapped, get returns the mapped object); they reproduce on the implementation and are listed "
-    "as known findings.  Tie to the code: pinned anchors and model/implementation correspondence on histories."
+    "what it holds carries an identity key; on the guarded region (ghost flag of the model down: no replace() evicted "
+    "another object, no unattached state was re-mapped by a snapshot restore, no row of a mapped object vanished, "
+    "delete() was never given a was-deleted state) every persistent object is the mapped one, everything mapped is "
+    "attached and two persistent objects never share an identity key; a query returns, row by row, the object mapped "
+    "under (pk, token); get of a present unexpired object returns it, emits no SQL and changes nothing.  Four concrete "
+    "histories outside the guard refute the unguarded reading (they reproduce on the implementation and are listed as "
+    "known findings).  Tie to the code: pinned anchors and model/implementation correspondence on histories."
 )
 LEVEL_NOTE = (
-    "partial: key_consistent is proved only in its unconditional part (mapped => keyed, pending => no key); the "
-    "directions 'mapped => attached' and 'persistent => mapped' are refuted by witnesses and otherwise only checked by "
-    "the oracle on implementation runs (no guarded theorem).  Not covered: relationship loads, SAVEPOINTs, weak-reference "
-    "collection of unreferenced objects, composite keys, other databases; rows and attribute expiry are environment "
-    "inputs.  Trusted: Coq kernel, the hand transcription, the harness observation.  No axioms."
+    "partial: one Session; relationship loads, SAVEPOINTs, weak-reference collection of unreferenced objects, composite "
+    "keys and other databases are not covered; rows and attribute expiry are environment inputs (quantified in the "
+    "theorems, observed from the implementation in the correspondence); histories are cut at set-iteration-order "
+    "dependent flushes.  The guard is conservative where it flags every vanished row and every delete() of a "
+    "was-deleted state, not only those that end in an inconsistency.  Trusted: Coq kernel, the hand transcription, the "
+    "harness observation.  No axioms."
 )
 TECHNIQUE = (
     "Coq: invariant (functional map, keyed) preserved by every operation, by lemmas about monotone / claiming / adding "
-    "passes over the object list and induction over folds and histories; witnesses by vm_compute; source pins; "
+    "passes over the object list and induction over folds and histories; a per-object boolean consistency invariant "
+    "under a ghost flag; witnesses by vm_compute; source pins; "
     "model/implementation correspondence with environment feedback (model_pair); direct oracle on identities and SQL counts"
 )
